@@ -276,9 +276,11 @@ pub fn m_replay_calc_percent() {
     let is_money: bool = vany(); let add: bool = vany(); let x: f64 = vany(); let p: f64 = vany();
     let digits: u8 = vany();
     vassume(digits <= 4);
+    let nt_code: u8 = vany();     // NumberType discriminant of the left operand (Decimal, Octal, Hexadecimal, Binary, Raw)
+    let nt = match nt_code { 1 => NumberType::Octal, 2 => NumberType::Hexadecimal, 3 => NumberType::Binary, 4 => NumberType::Raw, _ => NumberType::Decimal };
     let (cfg, a, _b) = two_currency_config_with(currency_full("AAA", "$", digits), currency_full("BBB", "B", 2), 1.0, 2.0);
     let op = if add { OperationType::Add } else { OperationType::Sub };
-    let r = if is_money { MoneyItem(x, a.clone()).calculate(&cfg, true, &PercentItem(p), op) } else { NumberItem(x, NumberType::Decimal).calculate(&cfg, true, &PercentItem(p), op) };
+    let r = if is_money { MoneyItem(x, a.clone()).calculate(&cfg, true, &PercentItem(p), op) } else { NumberItem(x, nt).calculate(&cfg, true, &PercentItem(p), op) };
     let it = r.expect("X +- p% is computed");
     let share = x * p / 100.0;
     let want = if add { x + share } else { x - share };
